@@ -8,6 +8,9 @@ for m in m1 m2; do
   [ -z "$CR" ] && CR=wow-mpq
   if [ -f $SD/demo.rs ]; then
     /verif/tools/confirm_seed.sh /tmp/wt$R-$ID $SD $CR > $SD/confirm.log 2>&1
+  elif grep -q "cargo build" $SD/demo.sh 2>/dev/null; then
+    # the demo takes the repository root and builds the CLI itself
+    /verif/tools/confirm_seed_root.sh /tmp/wt$R-$ID $SD $CR > $SD/confirm.log 2>&1
   else
     /verif/tools/confirm_seed_sh.sh /tmp/wt$R-$ID $SD $CR > $SD/confirm.log 2>&1
   fi
